@@ -2,20 +2,25 @@ D = "internal/dnsserver/"
 
 CHECK = dict(
     level="fault_enumeration",
-    level_text="Generated fault sequences: rapid-drawn histories of queries, health-check rounds, per-upstream behaviour switches (reply / non-NOERROR reply / four kinds of network error / three kinds of non-network error / no reply) and clock steps biased to the backoff boundary, for 1-3 main and 0-2 fallback upstreams, compared step by step with a reference fail-over state machine; the same reference is run against real UpstreamPlain clients and loopback UDP/TCP servers that are closed, reopened and made to answer wrongly; reply acceptance is checked on generated wrong-ID / wrong-name / case-only / wrong-type / question-count / TC / garbage replies. Held on N histories is evidence, not proof; the space of fault sequences is sampled, not enumerated completely.",
-    level_note="Time is owned by rewinding upstreamStatus.lastFailedHealthcheck (and the wall clock in between is bounded from both sides; a history in which it could have crossed a backoff boundary is discarded). Sequential histories only: concurrent Refresh/ServeDNS schedules are not explored. Handler.rand is replaced by a generator seeded from a rapid draw.",
+    level_text="Generated fault sequences: rapid-drawn histories of queries, health-check rounds, per-upstream behaviour switches (reply / non-NOERROR reply / four kinds of network error / three kinds of non-network error / no reply) and clock steps biased to the backoff boundary, for 1-3 main and 0-2 fallback upstreams, compared step by step with a reference fail-over state machine; the same reference is run against real UpstreamPlain clients and loopback UDP/TCP servers that are closed, reopened and made to answer wrongly; reply acceptance is checked on generated wrong-ID / wrong-name / case-only / wrong-type / question-count / TC / garbage replies, on replies of minimal size and at the UDP (4096) and TCP (65535) limits, on stale replies to a near-miss previous query over reused pooled connections, TCP replies in two pieces and extra datagrams. Handler construction with the initial health check, bursts of simultaneous queries, health checks with queries in flight (also under -race), servers that drop established connections, stall until the deadline, or truncate with the TCP port closed, and dead caller contexts are part of the socket-level histories. Held on N histories is evidence, not proof; the space of fault sequences is sampled, not enumerated completely.",
+    level_note="Time is owned by rewinding upstreamStatus.lastFailedHealthcheck (and the wall clock in between is bounded from both sides; a history in which it could have crossed a backoff boundary is discarded). Concurrent Refresh/ServeDNS schedules are sampled (queries in flight during a round, judged against the eligible set before or after it), not enumerated. Handler.rand is replaced by a generator seeded from a rapid draw.",
     technique="property-based testing (rapid): stateful fault-sequence histories vs a reference state machine; scripted upstream fakes and real loopback UDP/TCP servers",
     assumptions=[
         "miekg/dns codec and the kernel's loopback networking (ICMP port-unreachable for closed UDP ports, RST for closed TCP ports) are trusted",
         "rewinding lastFailedHealthcheck by d is equivalent to d of elapsed time",
         "a 'network error' is an error chain containing a net.Error (what the sockets produce for refused/timed-out exchanges); io.EOF and context errors are not generated",
+        "the reference uses its own limits (17-octet minimal message, 4096-octet UDP replies, 65535-octet TCP replies), not the package's constants",
+        "undecided by the statement and therefore accepted both ways: EOF from a main (fail-over or not), no reply without an error, a truncated UDP reply whose TCP retry is refused (truncated reply relayed or fail-over), what a query with a cancelled/expired context returns",
         "a health-check probe sent to an upstream that is in backoff is not a violation (doc/configuration.md says the healthcheck is still performed); only a return to rotation before the backoff has elapsed is",
     ],
     units=[
         dict(name="forward", dir=D + "forward", src="C17/forward", runs=[
             dict(name="history", run="^TestVerifC17History$", quick=40000, thorough=2000000, shards_quick=2, shards_thorough=8),
             dict(name="accept", run="^TestVerifC17Accept$", quick=5000, thorough=200000, shards_quick=1, shards_thorough=2),
-            dict(name="sockets", run="^TestVerifC17Sockets$", quick=2000, thorough=80000, shards_quick=2, shards_thorough=4),
+            dict(name="acceptseq", run="^TestVerifC17AcceptSeq$", quick=3000, thorough=120000, shards_quick=1, shards_thorough=2),
+            dict(name="sockets", run="^TestVerifC17Sockets$", quick=2000, thorough=80000, shards_quick=3, shards_thorough=6),
+            dict(name="history-race", run="^TestVerifC17History$", quick=2000, thorough=40000, shards_quick=1, shards_thorough=1, race=True),
+            dict(name="sockets-race", run="^TestVerifC17Sockets$", quick=200, thorough=4000, shards_quick=1, shards_thorough=1, race=True),
         ]),
     ],
 )
